@@ -257,6 +257,14 @@ def gen_ops(rng, tier):
     for s in limit_strings():
         for o in ("0100:none", "1100:none", "0000:none", "1001:3600", "0100:naive", "0100:@Pacific/Kiritimati"):
             yield op(o, s)
+    # --- week dates at the turn of the year (weeks 01, 52, 53, every weekday, both forms): the week date whose calendar date lies in
+    #     the neighbouring year (ordinal 0 or negative, ordinal past the end), for a run of consecutive years and every 7th year
+    years = list(range(1895, 2045)) + list(range(2, 9999, {"quick": 97, "thorough": 7, "widen": 31}.get(tier, 97)))
+    for y in years:
+        for w in (1, 52, 53):
+            for d in range(1, 8):
+                x = "%04d-W%02d-%d" % (y, w, d) if (y + w + d) % 2 else "%04dW%02d%d" % (y, w, d)
+                yield op(("0100:none", "1100:none", "0100:naive")[(y + d) % 3], x if (y + w) % 5 else x + "T10:20:30")
     # --- tz=None: interval strings with every mix of offset / no offset on the endpoints; bare times without now=
     for _ in range(4_000 * n):
         s = mixed_interval(rng)
